@@ -264,6 +264,10 @@ def standin(pid, ops, repo, scratch, known=(), known_hits=None):
         env = dict(os.environ)
         env['REPLAY_POLICY'] = 'whole' if pid == 'C15' else 'fragment'
         p = subprocess.run([exe, 'grid', op, '3' if not digests else '40'], capture_output=True, text=True, timeout=1800, env=env)
+        if p.returncode < 0 or (p.returncode not in (0, 1) and 'cases=' not in p.stdout):
+            # the grid process itself died (stack overflow, abort): run every case in a process of its own to learn which input does it
+            env['REPLAY_ISOLATE'] = '1'
+            p = subprocess.run([exe, 'grid', op, '3' if not digests else '40'], capture_output=True, text=True, timeout=3600, env=env)
         m = re.search(r'cases=(\d+)', p.stdout)
         cases += int(m.group(1)) if m else 0
         w = _parse_witness(p.stdout, skip=skip, skipped=known_hits)
